@@ -1105,13 +1105,15 @@ package connect
 //@   doc: "Unmarshal parses the JSON-encoded data and stores the result in the value pointed to by v (it writes to v and to objects it allocates, nothing else). Assumed of its errors: encoding/json validates the whole input first and reports truncation as a *json.SyntaxError (unexpected end of JSON input), never as io.EOF; the custom UnmarshalJSON methods reachable from here (connectWireError) return fmt / protojson / base64 errors."
 
 //@ func (*connectStreamingUnmarshaler).Unmarshal(u, message) res
-//@   tags C04, C05, C06, C11
+//@   tags C04, C05, C06, C11, C09
 //@   requires u != nil && u.envelopeReader.reader != nil && !pooled(u.envelopeReader.reader) && termerr(u.envelopeReader.reader) != errSpecialEnvelope && u.envelopeReader.bufferPool != nil && u.envelopeReader.codec != nil
 //@   assigns everything
 //@   ensures res == nil ==> old(completeFrame(u.envelopeReader, rest(u.envelopeReader.reader)) && (rest(u.envelopeReader.reader)[0] == 0 || rest(u.envelopeReader.reader)[0] == 1))   // label: a-message-only-from-a-complete-data-frame
 //@   ensures called("json.Unmarshal", 1) ==> old(completeFrame(u.envelopeReader, rest(u.envelopeReader.reader)) && bit(rest(u.envelopeReader.reader)[0], 2))   // label: end-of-stream-is-parsed-only-from-a-frame-flagged-0x02
 //@   ensures res != nil && Is(res, io.EOF) && termerr(u.envelopeReader.reader) == io.EOF && !called("json.Unmarshal", 1) ==> |old(rest(u.envelopeReader.reader))| == 0   // label: otherwise-eof-only-at-a-clean-end
 //@   ensures res != nil && Is(res, io.EOF) && !Is(res, errSpecialEnvelope) && termerr(u.envelopeReader.reader) == io.EOF ==> |old(rest(u.envelopeReader.reader))| == 0   // label: apart-from-the-sentinel-eof-only-at-a-clean-end
+//@   ensures (let S := old(rest(u.envelopeReader.reader)) in |S| >= 5 && bit(S[0], 2) && !bit(S[0], 1) && |S| >= 5 + declared(S) && withinLimit(declared(S), u.envelopeReader.readMaxBytes)) ==> called("json.Unmarshal", 1)   // label: a-complete-end-of-stream-envelope-within-the-read-limit-is-parsed   // tags: C09
+//@   ensures (let S := old(rest(u.envelopeReader.reader)) in |S| >= 5 && bit(S[0], 2) && !bit(S[0], 1) && |S| >= 5 + declared(S) && !withinLimit(declared(S), u.envelopeReader.readMaxBytes)) ==> called("json.Unmarshal", 1)   // label: the-read-limit-does-not-apply-to-the-end-of-stream-envelope   // tags: C09
 //@   ensures res != nil ==> asErr(res) == res                                                           // label: errors-are-coded
 //@   ensures res != errSpecialEnvelope ==> u.endStreamErr == old(u.endStreamErr)                        // label: end-stream-error-set-only-with-the-sentinel
 //@   ensures res == errSpecialEnvelope && u.endStreamErr != nil ==> u.endStreamErr.code != 0           // label: end-stream-error-has-a-non-zero-code   // tags: C06
@@ -1474,13 +1476,15 @@ package connect
 //@   ensures res == u.webTrailer
 
 //@ func (*grpcUnmarshaler).Unmarshal(u, message) res
-//@   tags C04, C06, C07
+//@   tags C04, C06, C07, C09
 //@   requires u != nil && u.envelopeReader.reader != nil && !pooled(u.envelopeReader.reader) && termerr(u.envelopeReader.reader) != errSpecialEnvelope && u.envelopeReader.bufferPool != nil && u.envelopeReader.codec != nil
 //@   assigns everything
 //@   ensures res == nil ==> old(completeFrame(u.envelopeReader, rest(u.envelopeReader.reader)) && (rest(u.envelopeReader.reader)[0] == 0 || rest(u.envelopeReader.reader)[0] == 1))   // label: a-message-only-from-a-complete-data-frame
 //@   ensures res == errSpecialEnvelope ==> old(u.web && completeFrame(u.envelopeReader, rest(u.envelopeReader.reader)) && bit(rest(u.envelopeReader.reader)[0], 128))   // label: web-trailers-only-from-a-frame-flagged-0x80
 //@   ensures res != nil && Is(res, io.EOF) && res != errSpecialEnvelope && termerr(u.envelopeReader.reader) == io.EOF && !called("(*textproto.Reader).ReadMIMEHeader", 1) ==> |old(rest(u.envelopeReader.reader))| == 0   // label: otherwise-eof-only-at-a-clean-end
 //@   ensures res != nil && Is(res, io.EOF) && !Is(res, errSpecialEnvelope) && termerr(u.envelopeReader.reader) == io.EOF ==> |old(rest(u.envelopeReader.reader))| == 0   // label: apart-from-the-sentinel-eof-only-at-a-clean-end
+//@   ensures (let S := old(rest(u.envelopeReader.reader)) in u.web && |S| >= 5 && bit(S[0], 128) && !bit(S[0], 1) && |S| >= 5 + declared(S) && withinLimit(declared(S), u.envelopeReader.readMaxBytes)) ==> called("(*textproto.Reader).ReadMIMEHeader", 1)   // label: a-complete-trailers-frame-within-the-read-limit-is-parsed   // tags: C09
+//@   ensures (let S := old(rest(u.envelopeReader.reader)) in u.web && |S| >= 5 && bit(S[0], 128) && !bit(S[0], 1) && |S| >= 5 + declared(S) && !withinLimit(declared(S), u.envelopeReader.readMaxBytes)) ==> called("(*textproto.Reader).ReadMIMEHeader", 1)   // label: the-read-limit-does-not-apply-to-the-trailers-frame   // tags: C09
 //@   ensures res != nil ==> asErr(res) == res                                                           // label: errors-are-coded
 
 //@ constfield grpcClientConn.duplexCall, grpcClientConn.responseHeader, grpcClientConn.responseTrailer, grpcClientConn.bufferPool, grpcClientConn.protobuf, grpcClientConn.readTrailers, grpcClientConn.compressionPools
